@@ -6,6 +6,7 @@ functions, all working state of c3d is per object, and objects cannot share
 section handles."""
 import re
 import json
+import effects as FX
 import os
 from facts import AnalysisBroken, VERIF
 from paths import root_of
@@ -150,6 +151,23 @@ def run(prog, tier):
                 res.viol('fs-path', c['qname'], f.loc(n['id']), 'file-system call %s: the library touches files the caller did not name' % c['qname'],
                          function=f.sig, expr=c['qname'])
     res.minimum('file-opening calls', nopen, 2)
+
+    # (const-input) a function never writes to what a `const T &` parameter designates (the const-bypass accessors
+    # make that possible without a cast): an input that several threads hand to their own objects stays read-only
+    E = FX.get(prog)
+    ncr = 0
+    for f in prog.repo_funcs():
+        for k, p_ in enumerate(f.rec.get('params', [])):
+            t = p_['type']
+            if not (t.startswith('const ') and t.endswith('&')):
+                continue
+            ncr += 1
+            ef = sorted({FX.fmt(e) for e in E.of(f) if e[0] == 'param:%d' % k})
+            if ef:
+                res.viol('const-input', '%s: parameter %d (%s)' % (f.qname.split('::')[-1], k, t), f.loc(), 'the function writes to the object behind its const reference parameter: %s; the same read-only input '
+                         'handed to objects in different threads is modified concurrently' % ef[:3], function=f.sig, expr='const-input:%s:%d' % (f.name, k))
+    res.ok('const-input', 'const reference parameters are never written through', 'src/', '%d const reference parameters screened' % ncr, function='', expr='const-input', nontrivial=False)
+    res.minimum('const reference parameters', ncr, 60)
 
     # (no-sharing) ----------------------------------------------------------------------------
     try:
